@@ -76,6 +76,8 @@ class sx_str(metaclass=_StrMeta):
             return x
         if isinstance(x, SymInt):
             return _symstr().symint_to_str(x)
+        if type(x).__name__ == "SymByte":
+            return _symstr().bounded_int_to_str(x.as_int(), 0, 255)
         return _real_str(x, *a)
 
 
